@@ -129,6 +129,27 @@ def run(ctx):
         ctx.violation("ch:_variants_complete", "spelling variant %r does not return its element" % (fails[0],),
                       {"contract": "_variants_complete", "args": fails[0]}, replay_contract)
 
+    # formula with multiplicities of one, two and three digits, plain and with unicode subscripts: ground instances of the contract
+    # _formula_large_counts (CrossHair does not reach two-digit list lengths within its budget)
+    ffail = None
+    nf = 0
+    for (z1, z2) in ((6, 1), (1, 8), (17, 6), (92, 35)):
+        for n1 in (1, 2, 9, 10, 12, 25):
+            for n2 in (0, 1, 2, 10, 11, 99, 100, 123):
+                for sub in (False, True):
+                    nf += 1
+                    try:
+                        okf = K._formula_large_counts(z1, z2, n1, n2, sub)
+                    except Exception:
+                        okf = False
+                    if not okf and ffail is None:
+                        ffail = [z1, z2, n1, n2, sub]
+    ctx.record("chemical_formula: %d ground instances with one- to three-digit multiplicities, plain and subscript" % nf, "holds" if ffail is None else "counterexample",
+               nontrivial=True, method="enumeration")
+    if ffail:
+        ctx.violation("ch:_formula_large_counts", "chemical_formula%r is not symbol + count written digit by digit" % (tuple(ffail),),
+                      {"contract": "_formula_large_counts", "args": ffail}, replay_contract)
+
     ctx.parallel_sections([("crosshair", lambda c: crosshair_part(c, thorough)), ("symx", lambda c: symx_part(c, real))])
 
 
